@@ -683,7 +683,7 @@ func run(r *core.Run) int {
 						cases = append(cases, &Case{MT: mt, Scheme: scheme, Expiry: exp, Devs: []string{a, b}})
 					}
 				}
-				for i, n := 0, r.Pick(600, 8000); i < n; i++ {
+				for i, n := 0, r.Pick(600, 40000); i < n; i++ {
 					k := 3 + rng.IntN(3)
 					var set []string
 					for j := 0; j < k; j++ {
